@@ -81,6 +81,7 @@ def answer (line : String) : String :=
       | .error e => "error:" ++ e ++ "\terror"
     | "C11" => C11.answer case impl
     | "C05CLI" => C05Cli.answer case impl
+    | "C07CLI" => C05Cli.answerWith true case impl
     | "C08" => C08.answer case impl
     | "C15" => C15.answer case impl
     | _ => "error:unknown-property\terror"
